@@ -438,13 +438,43 @@ def d3(cx: Cx, ob: Ob) -> None:
     rec = cx.model.cls(f"{API}.Record", ob.id)
     want = {"prefix_synonyms": "prefix", "uri_prefix_synonyms": "uri_prefix"}
     seen = {}
+    extra_validators: list = []
     for m in rec.methods.values():
         for d in m.node.decorator_list:
             if isinstance(d, ast.Call) and ast.unparse(d.func).endswith("field_validator"):
                 fields = [a.value for a in d.args if isinstance(a, ast.Constant)]
                 mode = next((k.value.value for k in d.keywords if k.arg == "mode" and isinstance(k.value, ast.Constant)), "after")
                 for f in fields:
-                    seen[f] = (m, mode)
+                    # a field may have several validators: the rejecting one is the one that can raise; the others
+                    # are transformations of the list, judged for what they keep
+                    m_s = cx.summary(m, ob.id)
+                    if m_s.raises() or f not in seen:
+                        if f in seen and not cx.summary(seen[f][0], ob.id).raises():
+                            extra_validators.append((f, seen[f][0]))
+                        seen[f] = (m, mode)
+                    else:
+                        extra_validators.append((f, m))
+    for f, m in extra_validators:
+        s = cx.summary(m, ob.id)
+        v = ("param", m.params[1].name) if len(m.params) > 1 else None
+        for t, ctx in s.returns():
+            ob.site(f"{m.where} {m.qualname}", f"transforming validator of {f}: {show(t)[:50]}")
+            keep_first = ("call", ("builtin", "list"), (("call", ("attr", ("builtin", "dict"), "fromkeys"), (v,), ()),), ())
+            if t == v or t == keep_first or t == ("call", ("builtin", "list"), (v,), ()):
+                continue
+            if op(t) == "comp" and len(t[3]) == 1 and t[3][0][1] == v and t[2] == t[3][0][0] and t[3][0][2]:
+                c_ = t[3][0][2][0]
+                if op(c_) == "call" and c_[1] == ("builtin", "isinstance"):
+                    continue
+                ob.violate(
+                    m.qualname,
+                    m.where,
+                    f"the validator {m.name} of `{f}` keeps only the entries for which `{show(c_)[:50]}`: names the input lists are dropped from every record that is built (every loader goes through Record), so they neither expand nor compress",
+                    witness="a synonym list that repeats an entry (or holds the empty prefix): the entry is gone from the record",
+                    detail=f"validator-drops:{f}",
+                )
+                continue
+            ob.undecide(f"the validator {m.name} of `{f}` returns `{show(t)[:50]}`: what it keeps of the list is not recognised")
     for f, canon in want.items():
         if f not in seen:
             ob.violate(rec.qualname, f"src/curies/{rec.module.relpath}:{rec.node.lineno}", f"Record has no field validator for `{f}`: a record may list its own `{canon}` among its synonyms", detail=f"no-validator:{f}")
